@@ -15,6 +15,9 @@ import ObiVerif.Lemmas.Genbank
 import ObiVerif.Lemmas.ScanMax
 import ObiVerif.Lemmas.FastaContent
 import ObiVerif.Lemmas.FastqContent
+import ObiVerif.Lemmas.FlatContent
+import ObiVerif.Lemmas.EmblContent
+import ObiVerif.Lemmas.GenbankContent
 /-!
 # C01 — parsed records do not depend on chunk boundaries, transport or parser workers
 
@@ -234,10 +237,10 @@ theorem splitFlat_spec (buf : Seq) (h : 0 ≤ splitFlat buf) : FlatEnd (buf.take
 /-- **parseEmbl_append** (EMBL record locality, repaired parser, real `bufio.Scanner`): if `a` ends with an
 end-of-record line and has no line of 65536 bytes or more, then for EVERY `b` the records of `a ++ b`
 parsed as one chunk are the records of `a` followed by what the parser returns on `b` alone (no record
-inherits `taxid`, `scientific_name`, `id`, definition, features or sequence bytes from the previous one).
-`EmblChunkParser` has no error path.  `emblRecs` = the line machine on ALL the lines of the text
-(Lemmas/Embl.lean); it is what the parser returns on every text without over-long line (third clause).
-The hypothesis on `a` is needed: `embl_long_line_truncates`. -/
+inherits `taxid`, `scientific_name`, `id`, definition, features or sequence bytes from the previous one),
+and it fails exactly as the parse of `b` fails (a line of 65536 bytes or more in `b`: fatal since the repair
+`C01-embl-scanner-err`).  `emblRecs` = the line machine on ALL the lines of the text
+(Lemmas/Embl.lean); it is what the parser returns on every text without over-long line (third clause). -/
 theorem parseEmbl_append (withFeat : Bool) (a b : Seq) (h : FlatEnd a) (hs : shortLines maxScanTok a = true) :
     parseEmbl withFeat a = .ok (emblRecs withFeat a) ∧
     parseEmbl withFeat (a ++ b) =
@@ -246,28 +249,96 @@ theorem parseEmbl_append (withFeat : Bool) (a b : Seq) (h : FlatEnd a) (hs : sho
        | .ok rb => .ok (emblRecs withFeat a ++ rb)) ∧
     (shortLines maxScanTok b = true → parseEmbl withFeat b = .ok (emblRecs withFeat b)) := by
   refine ⟨parseEmbl_eq_short withFeat a hs, ?_, parseEmbl_eq_short withFeat b⟩
-  rw [parseEmbl_eq, parseEmbl_eq, parseEmblMax_append maxScanTok withFeat h hs b]
+  have := parseEmblMax_append_any maxScanTok (by decide) withFeat h b
+  rw [parseEmblMax_short maxScanTok withFeat a hs] at this
+  exact this
 
-/-- **embl_long_line_truncates** (what the code does with a line the scanner cannot hold, for ANY token
-limit `max`, in particular the real 65536): `pre` is empty or ends with `\n` and has no long line, `l` is a
-line of `max` bytes or more: the parser returns the records of `pre` only — the long line and every
-record after it in the same chunk are dropped without any error (`scanner.Err()` is never consulted). -/
-theorem embl_long_line_truncates (max : Nat) (withFeat : Bool) (pre l rest : Seq)
+/-- **parseEmbl_append_any** (same, without any hypothesis on the line lengths of `a`): the chunk `a ++ b`
+fails as `a` fails, else as `b` fails, else yields the records of `a` followed by those of `b` — the
+statement GenBank has (`parseGenbank_append`) -/
+theorem parseEmbl_append_any (withFeat : Bool) (a b : Seq) (h : FlatEnd a) :
+    parseEmbl withFeat (a ++ b) =
+      match parseEmbl withFeat a with
+      | .error e => .error e
+      | .ok ra =>
+        match parseEmbl withFeat b with
+        | .error e => .error e
+        | .ok rb => .ok (ra ++ rb) :=
+  parseEmblMax_append_any maxScanTok (by decide) withFeat h b
+
+/-- **parseEmbl_fatal_iff** (repair `C01-embl-scanner-err`): `EmblChunkParser` + `_ParseEmblFile` end with
+`log.Fatalf` exactly on the chunks that contain a line of 65536 bytes or more; on every other chunk every
+line is handed to the line machine; there is no panic path. -/
+theorem parseEmbl_fatal_iff (withFeat : Bool) (c : Seq) :
+    (parseEmbl withFeat c = .error .fatal ↔ shortLines maxScanTok c = false) ∧
+    (shortLines maxScanTok c = true → parseEmbl withFeat c = .ok (emblRecs withFeat c)) ∧
+    parseEmbl withFeat c ≠ .error .panic :=
+  ⟨(parseEmblMax_fatal_iff maxScanTok (by decide) withFeat c).1, parseEmbl_eq_short withFeat c,
+   (parseEmblMax_fatal_iff maxScanTok (by decide) withFeat c).2.2⟩
+
+/-- **embl_long_line_fatal** (what the repaired code does with a line the scanner cannot hold, for ANY token
+limit `max > 0`, in particular the real 65536): `pre` is empty or ends with `\n` and has no long line, `l` is a
+line of `max` bytes or more: the scanner hands over the lines of `pre` only, and the outcome is fatal.
+Before the repair (`parseEmblMaxSilent`, `scanner.Err()` never consulted) the parser returned the records of
+`pre` as if nothing had happened: the long line and every record after it in the same chunk were dropped
+without any error. -/
+theorem embl_long_line_fatal (max : Nat) (hmax : 0 < max) (withFeat : Bool) (pre l rest : Seq)
     (hpre : pre = [] ∨ ∃ p, pre = p ++ [10]) (hshort : shortLines max pre = true)
     (hl : ∀ c ∈ l, c ≠ 10) (hlen : max ≤ l.length) (hrest : rest = [] ∨ ∃ r, rest = 10 :: r) :
-    parseEmblMax max withFeat (pre ++ l ++ rest) = .ok (emblRecs withFeat pre) := by
-  unfold parseEmblMax emblRecs
-  rw [linesScanMax_stops max pre l rest hpre hshort hl hlen hrest]
+    linesScanMax max (pre ++ l ++ rest) = linesScan pre ∧
+    parseEmblMax max withFeat (pre ++ l ++ rest) = .error .fatal ∧
+    parseEmblMaxSilent max withFeat (pre ++ l ++ rest) = .ok (emblRecs withFeat pre) := by
+  have hstop := linesScanMax_stops max pre l rest hpre hshort hl hlen hrest
+  refine ⟨hstop, ?_, ?_⟩
+  · apply (parseEmblMax_fatal_iff max hmax withFeat _).2.1
+    -- a short text has as many lines as the scanner hands over; here the scan stopped early
+    cases hs : shortLines max (pre ++ l ++ rest) with
+    | false => rfl
+    | true =>
+      exfalso
+      rw [List.append_assoc] at hs
+      have h2 := (shortLines_append hs).2
+      have h3 := (shortLines_append h2).1
+      unfold shortLines at h3
+      have : ∀ (l : Seq) (n : Nat), (∀ c ∈ l, c ≠ 10) → shortRun max l n = true → n + l.length < max := by
+        intro l
+        induction l with
+        | nil => intro n _ h; simpa [shortRun] using h
+        | cons c t ih =>
+          intro n hc h
+          have h10 : (c == 10) = false := by simpa using hc c (by simp)
+          simp only [shortRun, h10] at h
+          have := ih (n + 1) (fun x hx => hc x (by simp [hx])) h
+          simp only [List.length_cons]; omega
+      have := this l 0 hl h3
+      omega
+  · unfold parseEmblMaxSilent emblRecs
+    rw [hstop]
 
-/-- such inputs are outside the property (an EMBL line has at most 80 bytes), and they are read
-chunk-dependently.  Illustration with an 8-byte token buffer, `ID   A;␊XXXXXXXX␊//␊ID   B;␊//␊`: as one
-chunk nothing is returned; cut after the first `//` line, the second chunk yields record `B`. -/
-theorem reader_embl_longline_counterexample :
+/-- such inputs are outside the property (an EMBL line has at most 80 bytes).  Illustration with an 8-byte
+token buffer, `ID   A;␊XXXXXXXX␊//␊ID   B;␊//␊`: repaired code: fatal as one chunk, fatal with a 4-byte read
+buffer (the first of the two chunks is fatal) — the same outcome; before the repair: nothing returned as one
+chunk, record `B` returned when a cut falls after the first `//` line (chunk dependence, no message). -/
+theorem reader_embl_longline_example :
     let file : Seq := [73, 68, 32, 32, 32, 65, 59, 10, 88, 88, 88, 88, 88, 88, 88, 88, 10, 47, 47, 10, 73, 68, 32, 32, 32, 66, 59, 10, 47, 47, 10]
-    shortLines 8 file = false ∧ parseEmblMax 8 false file = .ok [] ∧
+    shortLines 8 file = false ∧ parseEmblMax 8 false file = .error .fatal ∧
     (chunks splitFlat 4 file).map (fun cs => cs.map (parseEmblMax 8 false)) =
+      some [.error .fatal, .ok [{ id := [66], defn := [], seq := [], flat := some (1, [], []) }]] ∧
+    parseEmblMaxSilent 8 false file = .ok [] ∧
+    (chunks splitFlat 4 file).map (fun cs => cs.map (parseEmblMaxSilent 8 false)) =
       some [.ok [], .ok [{ id := [66], defn := [], seq := [], flat := some (1, [], []) }]] := by
-  refine ⟨by decide, by rfl, by rfl⟩
+  refine ⟨by decide, by rfl, by rfl, by rfl, by rfl⟩
+
+/-- what remains chunk-dependent after the repair (irregular input, not a well-formed file): a LAST line of
+`max − 1` bytes followed by `␍␊`.  As one chunk the scanner needs `max` bytes before the `␊`: fatal; the
+chunk reader strips the final `␍␊`, the unterminated line of `max − 1` bytes fits.  8-byte illustration
+`ID   A;␊//␊XXXXXXX␍␊`. -/
+theorem reader_embl_longline_last_line_example :
+    let file : Seq := [73, 68, 32, 32, 32, 65, 59, 10, 47, 47, 10, 88, 88, 88, 88, 88, 88, 88, 13, 10]
+    parseEmblMax 8 false file = .error .fatal ∧
+    (chunks splitFlat 4 file).map (fun cs => cs.map (parseEmblMax 8 false)) =
+      some [.ok [{ id := [65], defn := [], seq := [], flat := some (1, [], []) }], .ok []] := by
+  refine ⟨by rfl, by rfl⟩
 
 /-- non-vacuity: `ID   A;␊//␊` ends with an end-of-record line -/
 example : FlatEnd [73, 68, 32, 32, 32, 65, 59, 10, 47, 47, 10] := ⟨[73, 68, 32, 32, 32, 65, 59], Or.inl rfl⟩
@@ -454,7 +525,7 @@ theorem parseGenbank_append (withFeat : Bool) (a b : Seq) (h : FlatEnd a) :
 
 /-- **reader_independent_embl**.  `regularEol file`: every `\r` of the file is followed by `\n` (lines
 end with `\n` or `\r\n`; Lemmas/Genbank.lean); `shortLines maxScanTok file`: no line of 65536 bytes or more
-(the `bufio.Scanner` token limit; needed: `embl_long_line_truncates`, `reader_embl_longline_counterexample`).
+(the `bufio.Scanner` token limit; with such a line the outcome is fatal: `parseEmbl_fatal_iff`, `embl_long_line_fatal`).
 For every such file — records or not —, every buffer
 size ≥ 2 and every arrival order of the parsed chunks at the re-sequencer, the released batches carry,
 in order, exactly the records of the one-chunk parse (`EmblChunkParser` has no error path). -/
@@ -684,5 +755,174 @@ example : trimSpace [0xC2, 0xA0, 11, 97, 32, 98, 12, 0xE2, 0x80, 0x83, 0xC2, 0x8
 example : trimSpace [0xA0, 97, 0xC2] = [0xA0, 97, 0xC2] := by decide
 example : trimSpace [32, 0xE2, 0x80, 0x8B, 97, 0xC0, 0xA0, 32] = [0xE2, 0x80, 0x8B, 97, 0xC0, 0xA0] := by decide
 example : trimSpace [32, 0xC2, 0xA0, 9] = [] := by decide
+
+/-! ## 7. Record content = what the entry's own text says (EMBL, GenBank)
+
+`EmEntry` / `GbEntry` (Lemmas/EmblContent.lean, Lemmas/GenbankContent.lean): the source text of one flat-file
+entry as classified lines; `EmEntry.record` / `GbEntry.record`: identifier from the `ID` / `LOCUS` line,
+definition from the `DE` lines / the `DEFINITION` line and its continuation lines (trimmed, joined by one
+blank), scientific name from `OS` / `SOURCE`, taxid from the `/db_xref="taxon:N"` qualifier (1 without one),
+sequence = the groups of the `SQ` / `ORIGIN` block, coordinates and blanks dropped, lower-cased; feature table
+(when requested) = its lines joined by `\n`.  `flatFileText crlf lines closed`: every line followed by `\n` or
+`\r\n` (any mixture, `crlf i` for line `i`), the last line end optional. -/
+
+/-- **parseEmbl_content**: on every well-formed EMBL file (entries `es`, lines below the scanner limit, any
+mixture of LF / CR LF, final line end optional, blank lines between entries) the chunk parser returns, in file
+order, for each entry exactly the record its own text implies — whatever its neighbours. -/
+theorem parseEmbl_content (withFeat : Bool) (es : List EmEntry) (hok : ∀ e ∈ es, e.OK)
+    (hshort : ∀ e ∈ es, ∀ l ∈ e.lines, l.length + 1 < maxScanTok) (crlf : Nat → Bool) (closed : Bool)
+    (hlast : closed = false → ∀ l, (es.flatMap EmEntry.lines).getLast? = some l → l ≠ []) :
+    parseEmbl withFeat (flatFileText crlf (es.flatMap EmEntry.lines) closed) = .ok (es.map (EmEntry.record withFeat)) := by
+  have hne : ∀ l ∈ es.flatMap EmEntry.lines, NoEol l := by
+    intro l hl
+    obtain ⟨e, he, hle⟩ := List.mem_flatMap.mp hl
+    exact e.noEol_lines (hok e he) l hle
+  have hlen : ∀ l ∈ es.flatMap EmEntry.lines, l.length + 1 < maxScanTok := by
+    intro l hl
+    obtain ⟨e, he, hle⟩ := List.mem_flatMap.mp hl
+    exact hshort e he l hle
+  rw [parseEmbl_eq_short withFeat _ (shortLines_flatFileText maxScanTok (by decide) crlf _ closed hne hlen)]
+  unfold emblRecs
+  rw [linesScan_eq, linesG_flatFileText dropCR dropCR_noEol' crlf _ closed hne hlast, emRun_entries withFeat es hok]
+
+/-- **reader_content_embl** (the property for EMBL, end to end): for every well-formed file, every read-buffer
+size ≥ 2 and every arrival order of the parsed chunks at `SortBatches`, the released batches are error-free
+and carry, in file order, exactly the records the entries' texts imply. -/
+theorem reader_content_embl (withFeat : Bool) (es : List EmEntry) (hok : ∀ e ∈ es, e.OK)
+    (hshort : ∀ e ∈ es, ∀ l ∈ e.lines, l.length + 1 < maxScanTok) (crlf : Nat → Bool) (closed : Bool)
+    (hlast : closed = false → ∀ l, (es.flatMap EmEntry.lines).getLast? = some l → l ≠ []) (b : Nat) (hb : 2 ≤ b) :
+    ∃ cs, chunks splitFlat b (flatFileText crlf (es.flatMap EmEntry.lines) closed) = some cs ∧
+      ∀ ks : List Nat, ks.Perm (List.range cs.length) →
+        ∃ rss : List (List Rec),
+          reseq (ks.map fun k => (k, parseEmbl withFeat (cs.getD k []))) = rss.map Except.ok ∧
+          rss.flatten = es.map (EmEntry.record withFeat) := by
+  have hne : ∀ l ∈ es.flatMap EmEntry.lines, NoEol l := by
+    intro l hl
+    obtain ⟨e, he, hle⟩ := List.mem_flatMap.mp hl
+    exact e.noEol_lines (hok e he) l hle
+  have hlen : ∀ l ∈ es.flatMap EmEntry.lines, l.length + 1 < maxScanTok := by
+    intro l hl
+    obtain ⟨e, he, hle⟩ := List.mem_flatMap.mp hl
+    exact hshort e he l hle
+  obtain ⟨cs, hcs, hall⟩ := reader_independent_embl withFeat _
+    (regularEol_flatFileText crlf _ closed hne)
+    (shortLines_flatFileText maxScanTok (by decide) crlf _ closed hne hlen) b hb
+  refine ⟨cs, hcs, fun ks hperm => ?_⟩
+  obtain ⟨rss, h1, h2⟩ := hall ks hperm
+  refine ⟨rss, h1, ?_⟩
+  rw [parseEmbl_content withFeat es hok hshort crlf closed hlast] at h2
+  exact (Except.ok.inj h2).symm
+
+/-- **parseGenbank_content**: on every well-formed GenBank file (entries with an `ORIGIN` block, lines of at
+most 100 bytes — the parser's own limit —, any mixture of LF / CR LF, final line end optional, blank lines
+between entries) the chunk parser ends without fatal error and returns, in file order, for each entry exactly
+the record its own text implies. -/
+theorem parseGenbank_content (withFeat : Bool) (es : List GbEntry) (hok : ∀ e ∈ es, e.OK) (crlf : Nat → Bool)
+    (closed : Bool) (hlast : closed = false → ∀ l, (es.flatMap GbEntry.lines).getLast? = some l → l ≠ []) :
+    parseGenbank withFeat (flatFileText crlf (es.flatMap GbEntry.lines) closed) = .ok (es.map (GbEntry.record withFeat)) := by
+  have hne : ∀ l ∈ es.flatMap GbEntry.lines, NoEol l := by
+    intro l hl
+    obtain ⟨e, he, hle⟩ := List.mem_flatMap.mp hl
+    exact e.noEol_lines (hok e he) l hle
+  rw [parseGenbank_eq, linesG_flatFileText id id_noEol crlf _ closed hne hlast]
+  obtain ⟨sT, hT⟩ := gbRun_entries withFeat es {} hok ⟨rfl, rfl, rfl, rfl, rfl⟩
+  unfold gbRecs
+  rw [hT]
+
+/-- **reader_content_genbank** (the property for GenBank, end to end) -/
+theorem reader_content_genbank (withFeat : Bool) (es : List GbEntry) (hok : ∀ e ∈ es, e.OK) (crlf : Nat → Bool)
+    (closed : Bool) (hlast : closed = false → ∀ l, (es.flatMap GbEntry.lines).getLast? = some l → l ≠ [])
+    (b : Nat) (hb : 2 ≤ b) :
+    ∃ cs, chunks splitFlat b (flatFileText crlf (es.flatMap GbEntry.lines) closed) = some cs ∧
+      ∀ ks : List Nat, ks.Perm (List.range cs.length) →
+        ∃ rss : List (List Rec),
+          reseq (ks.map fun k => (k, parseGenbank withFeat (cs.getD k []))) = rss.map Except.ok ∧
+          rss.flatten = es.map (GbEntry.record withFeat) := by
+  have hne : ∀ l ∈ es.flatMap GbEntry.lines, NoEol l := by
+    intro l hl
+    obtain ⟨e, he, hle⟩ := List.mem_flatMap.mp hl
+    exact e.noEol_lines (hok e he) l hle
+  have hparse := parseGenbank_content withFeat es hok crlf closed hlast
+  obtain ⟨cs, hcs, hall⟩ := reader_independent_genbank withFeat _
+    (regularEol_flatFileText crlf _ closed hne) _ hparse b hb
+  refine ⟨cs, hcs, fun ks hperm => ?_⟩
+  obtain ⟨rss, h1, h2⟩ := hall ks hperm
+  refine ⟨rss, h1, ?_⟩
+  rw [hparse] at h2
+  exact (Except.ok.inj h2).symm
+
+/-- **the taxid of a `/db_xref="taxon:N"` qualifier is N** (both formats: the 37-byte key, a decimal numeral
+below 2^63, the closing quote) -/
+theorem taxon_value (key ds rest : Seq) (hk : key = emXREF ∨ key = gbXREF) (h : IsDigits ds) (hv : decVal ds < 2 ^ 63) :
+    taxonOf (key ++ ds ++ 34 :: rest) = (decVal ds : Int) ∧ hasPrefix key (key ++ ds ++ 34 :: rest) = true := by
+  refine ⟨taxonOf_digits key ds rest (by rcases hk with rfl | rfl <;> rfl) h hv, ?_⟩
+  rw [List.append_assoc]; exact hasPrefix_self _ _
+
+/-- non-vacuity (and a test on a sample): the EMBL entry
+`ID   AB1; SV 1;` / `XX` / `DE   first ` / `DE   part.` / `OS   Homo sapiens` / `FH   Key` / `FH` /
+`FT                   /db_xref="taxon:9606"` / `SQ   Sequence 6 BP;` / `     acgTAC        6` / `//` -/
+def exEm : EmEntry :=
+  { idRest := [65, 66, 49, 59, 32, 83, 86, 32, 49, 59],
+    items := [.other [88, 88], .de [102, 105, 114, 115, 116, 32], .de [112, 97, 114, 116, 46], .os [72, 111, 109, 111, 32, 115, 97, 112, 105, 101, 110, 115],
+      .fh [75, 101, 121], .fhAlone, .ft [32, 32, 32, 32, 32, 32, 32, 32, 32, 32, 32, 32, 32, 32, 32, 32, 47, 100, 98, 95, 120, 114, 101, 102, 61, 34, 116, 97, 120, 111, 110, 58, 57, 54, 48, 54, 34], .other [83, 81, 32, 32, 32, 83, 101, 113, 117, 101, 110, 99, 101, 32, 54, 32, 66, 80, 59],
+      .sq [[97, 99, 103, 84, 65, 67]] 7 [54]],
+    blanks := 1 }
+
+example : exEm.OK := by
+  refine ⟨by decide, ?_, by simp [exEm, emFeatOK]⟩
+  intro it hit
+  simp only [exEm, List.mem_cons, List.not_mem_nil, or_false] at hit
+  rcases hit with rfl | rfl | rfl | rfl | rfl | rfl | rfl | rfl | rfl
+  · exact ⟨by decide, by decide, by decide, by decide, by decide, by decide, by decide, by decide, by decide⟩
+  · exact ⟨by decide, by decide⟩
+  · exact ⟨by decide, by decide⟩
+  · show NoEol _; decide
+  · show NoEol _; decide
+  · trivial
+  · show NoEol _; decide
+  · exact ⟨by decide, by decide, by decide, by decide, by decide, by decide, by decide, by decide, by decide⟩
+  · refine ⟨?_, by decide, by decide, by decide⟩
+    intro g hg
+    simp only [List.mem_cons, List.not_mem_nil, or_false] at hg
+    subst hg
+    exact ⟨by decide, by decide⟩
+
+example : exEm.record true =
+    { id := [65, 66, 49], defn := [102, 105, 114, 115, 116, 32, 112, 97, 114, 116, 46], seq := [97, 99, 103, 116, 97, 99],
+      flat := some (9606, [72, 111, 109, 111, 32, 115, 97, 112, 105, 101, 110, 115],
+        [70, 72, 32, 32, 32, 75, 101, 121, 10, 70, 72, 10, 70, 84, 32, 32, 32, 32, 32, 32, 32, 32, 32, 32, 32, 32, 32, 32, 32, 32, 32, 32, 32, 47, 100, 98, 95, 120, 114, 101, 102, 61, 34, 116, 97, 120, 111, 110, 58, 57, 54, 48, 54, 34]) } := by rfl
+
+set_option maxRecDepth 20000 in
+example : parseEmbl false (flatFileText (fun i => i % 2 == 0) ([exEm, exEm].flatMap EmEntry.lines) true) =
+    .ok [exEm.record false, exEm.record false] := by rfl
+
+/-- non-vacuity (and a test on a sample): the GenBank entry
+`LOCUS       AB1 6 bp` / `DEFINITION  first` / `            part.` / `ACCESSION   AB1` / `SOURCE      Homo sapiens` /
+`  ORGANISM  Homo sapiens` / `            Eukaryota.` / `FEATURES             Location/Qualifiers` /
+`     source          1..6` / `                     /db_xref="taxon:9606"` / `ORIGIN` / `        1 acgTAC gt` / `//` -/
+def exGb : GbEntry :=
+  { locusRest := [65, 66, 49, 32, 54, 32, 98, 112], pre := [], defn := some ([102, 105, 114, 115, 116], [[112, 97, 114, 116, 46]]),
+    post := [.other [65, 67, 67, 69, 83, 83, 73, 79, 78, 32, 32, 32, 65, 66, 49], .source [72, 111, 109, 111, 32, 115, 97, 112, 105, 101, 110, 115], .other [32, 32, 79, 82, 71, 65, 78, 73, 83, 77, 32, 32, 72, 111, 109, 111, 32, 115, 97, 112, 105, 101, 110, 115],
+      .other [32, 32, 32, 32, 32, 32, 32, 32, 32, 32, 32, 32, 69, 117, 107, 97, 114, 121, 111, 116, 97, 46]],
+    featRest := [32, 32, 32, 32, 32, 32, 32, 32, 32, 76, 111, 99, 97, 116, 105, 111, 110, 47, 81, 117, 97, 108, 105, 102, 105, 101, 114, 115],
+    feats := [[32, 32, 32, 32, 32, 115, 111, 117, 114, 99, 101, 32, 32, 32, 32, 32, 32, 32, 32, 32, 32, 49, 46, 46, 54], [32, 32, 32, 32, 32, 32, 32, 32, 32, 32, 32, 32, 32, 32, 32, 32, 32, 32, 32, 32, 32, 47, 100, 98, 95, 120, 114, 101, 102, 61, 34, 116, 97, 120, 111, 110, 58, 57, 54, 48, 54, 34]],
+    originRest := [], seqs := [{ pfx := [32, 32, 32, 32, 32, 32, 32, 32, 49, 32], groups := [[97, 99, 103, 84, 65, 67]], last := [103, 116] }] }
+
+example : exGb.OK := by
+  unfold GbEntry.OK
+  refine ⟨by decide, (by intro it h; cases h), ?_, by decide, by decide, by decide, by decide, by decide, by decide⟩
+  intro p hp
+  simp only [exGb, Option.some.injEq] at hp
+  subst hp
+  exact ⟨by decide, by decide, by intro it h; simp only [exGb, List.head?_cons, Option.some.injEq] at h; subst h; decide⟩
+
+example : exGb.record true =
+    { id := [65, 66, 49], defn := [102, 105, 114, 115, 116, 32, 112, 97, 114, 116, 46], seq := [97, 99, 103, 116, 97, 99, 103, 116],
+      flat := some (9606, [72, 111, 109, 111, 32, 115, 97, 112, 105, 101, 110, 115],
+        [70, 69, 65, 84, 85, 82, 69, 83, 32, 32, 32, 32, 32, 32, 32, 32, 32, 32, 32, 32, 32, 76, 111, 99, 97, 116, 105, 111, 110, 47, 81, 117, 97, 108, 105, 102, 105, 101, 114, 115, 10, 32, 32, 32, 32, 32, 115, 111, 117, 114, 99, 101, 32, 32, 32, 32, 32, 32, 32, 32, 32, 32, 49, 46, 46, 54, 10, 32, 32, 32, 32, 32, 32, 32, 32, 32, 32, 32, 32, 32, 32, 32, 32, 32, 32, 32, 32, 32, 47, 100, 98, 95, 120, 114, 101, 102, 61, 34, 116, 97, 120, 111, 110, 58, 57, 54, 48, 54, 34]) } := by rfl
+
+set_option maxRecDepth 20000 in
+example : parseGenbank true (flatFileText (fun i => i % 3 == 0) ([exGb, exGb].flatMap GbEntry.lines) false) =
+    .ok [exGb.record true, exGb.record true] := by rfl
 
 end ObiVerif.Props.C01
